@@ -320,6 +320,17 @@ def check_unary(res, mode, N, bl, strand, pk, only=None):
         # (nested overlapping blocks: .end is the end of the last block, reflect() may leave the sequence; no
         # property speaks of reverse() there)
         res.deviation("reverse", _case("unary", op="reverse", **base), o[1], "location", sig="reverse-raises")
+    # the maps are functions of the location: the same questions after the sequence was extracted (twice) and the blocks were
+    # listed - extraction and block listing walk the structures the maps use
+    if pk == "seq" and strand != "." and ln:
+        for nth in (1, 2):  # (after one extraction, and after a second one)
+            lib.outcome(lambda: (str(L.extract_sequence()), [(b_.start, b_.end) for b_ in L.blocks]))
+            again_r = [lib.outcome(L.relative_to_parent_pos, r)[1] for r in range(ln)]
+            again_p = [lib.outcome(L.parent_to_relative_pos, p)[1] for p in Pref]
+            res.trans(2 * ln)
+            if again_r != Pref or again_p != [Pref.index(p) for p in Pref]:
+                res.deviation("relative_to_parent_pos", _case("unary", op="maps-after-extract", nth=nth, **base), [again_r, again_p], [Pref, [Pref.index(p) for p in Pref]], sig="maps-after-extract")
+                break
     res.sample({"layout": [list(b) for b in bl], "strand": strand, "mode": mode, "parent": pk, "P": Pref})
 
 
